@@ -19,7 +19,7 @@ inline Table random_table(Rng& g, int N, int style = -1, int ystyle = -1)
 	if(style < 0)
 		style = (int)g.range(0, 3);
 	if(ystyle < 0)
-		ystyle = (int)g.range(0, 5);
+		ystyle = (int)g.range(0, 6);
 	t.x.resize(N);
 	t.y.resize(N);
 	double x0 = g.coin(0.3) ? 0.0 : g.gauss() * std::pow(10.0, g.uni(-3, 3));
@@ -59,6 +59,11 @@ inline Table random_table(Rng& g, int N, int style = -1, int ystyle = -1)
 		mag = std::pow(10.0, g.uni(-2, 2));
 	double phase = g.uni(0, 6.28), freq = g.uni(0.05, 1.5);
 	double walk = 0;
+	// ystyle 6: samples of a parabola whose vertex lies just outside the table, inside a 1% extrapolation zone (the edge cubic of
+	// such a table has a leading coefficient that is only a rounding residue)
+	bool right	  = g.coin();
+	double vertex = right ? t.x[N - 1] + 0.5e-2 * (t.x[N - 1] - t.x[N - 2]) * g.uni(0.02, 0.6) : t.x[0] - 0.5e-2 * (t.x[1] - t.x[0]) * g.uni(0.02, 0.6);
+	double curv	  = (g.coin() ? 1 : -1) * g.uni(0.1, 5.0) / std::pow(t.x[N - 1] - t.x[0], 2);
 	for(int i = 0; i < N; i++)
 	{
 		double v;
@@ -69,6 +74,7 @@ inline Table random_table(Rng& g, int N, int style = -1, int ystyle = -1)
 			case 2: walk += g.coin(0.3) ? 0.0 : g.gauss(); v = walk; break;			// random walk with plateaus
 			case 3: v = g.coin(0.08) ? g.gauss() * 1e3 : 1.0 + 1e-3 * g.gauss(); break;	// isolated spikes
 			case 4: v = g.gauss() * std::pow(10.0, g.uni(-6, 6)); break;				// mixed magnitudes
+			case 6: v = curv * (t.x[i] - vertex) * (t.x[i] - vertex); break;			// parabola, vertex in a zone
 			default: v = (double)g.range(-3, 3); break;								// small integers, many ties
 		}
 		t.y[i] = v * mag;
